@@ -19,7 +19,7 @@ PROP = "C14"
 LEVEL = "exploration"
 
 ATOMS = ["a", " a", "a ", " a ", "\na", "a\nb", "k=v", " k = v ", "k=\nv", "2=v", "02=v", "k= v w ", "x y",
-         "3= p ", "j =w"]
+         "3= p ", "j =w", "m=v\nw", " n = a\n b "]
 SMALL = ["a", " b ", "k=v", "2=w", "\nc"]
 ECHO = r"""
 local e = {}
